@@ -752,6 +752,10 @@ func vtC17Gen(r *rand.Rand, i int) (string, []int64) {
 			// the Update recording ReservationRef fails, then the TTL passes (known finding sig 2)
 			step(func() { g.pod(uid, node, 2, ctrl) })
 			step(func() { g.op(0, 8) })
+			if r.Intn(2) == 0 {
+				// a reconcile in time: the reservation is adopted (Create -> AlreadyExists -> Get) and recorded
+				step(g.reconcile)
+			}
 			step(func() { g.op(4, ttl+int64(r.Intn(3))-1) })
 			step(g.reconcile)
 			step(g.reconcile)
